@@ -1,11 +1,46 @@
-import PcfgVerif.Lemmas.Adopt
-import PcfgVerif.Lemmas.AdoptOrder
-import PcfgVerif.Lemmas.Best
-import PcfgVerif.Model.GridSpec
-/-! C02 — placeholder until the refinement proof lands: abstract core only. -/
-namespace Pcfg.C02
+import PcfgVerif.Properties.PQCore
+/-!
+# C02 — every pre-terminal of the grammar is emitted exactly once
 
-theorem abstract_exhaustive {α : Type} [DecidableEq α] (S : Adopt.Sys α) (s : Adopt.St α)
-    (h : Adopt.Inv S s) (hq : s.queue = []) : s.popped.Perm S.all := Adopt.exhausted_perm S s h hq
+`Reach` covers every intermediate state of the queue under every tie-breaking of the heap; the
+invariant is order-independent (it does not lean on C01).  Duplicate base structures are distinct
+nodes (different `b`).
+-/
+namespace Pcfg.C02
+variable {P : Type} [Inhabited P]
+
+/-- in every reachable state nothing is in `popped ++ queue` twice and everything is a grid node;
+when the queue is empty the emitted list is a permutation of all (structure, one group per variable)
+combinations: none skipped, none repeated -/
+theorem C02_exactly_once (A : PAlg P) (g : Grid P) (hwf : WF A.toPOps g) (s : PQState)
+    (h : Reach A.toPOps g (initNodes g) s) :
+    (s.popped ++ s.queue).Nodup ∧ (∀ v ∈ s.popped ++ s.queue, ValidNode g v) ∧
+      (s.queue = [] → s.popped.Perm (allNodes g)) :=
+  pq_exactly_once A g hwf s h
+
+/-- the run ends: at most one pop per grid node -/
+theorem C02_terminates (A : PAlg P) (g : Grid P) (hwf : WF A.toPOps g) (s : PQState)
+    (h : Reach A.toPOps g (initNodes g) s) : s.popped.length ≤ (allNodes g).length :=
+  pq_terminates A g hwf s h
+
+/-- and it cannot stop early: a non-empty queue always has a poppable element, so the only final
+states are those with an empty queue, where `C02_exactly_once` gives the whole grid -/
+theorem C02_no_early_stop (A : PAlg P) (g : Grid P) (q : List Node) (hq : q ≠ []) :
+    ∃ x, isTop A.toPOps g q x = true :=
+  pq_progress A g q hq
+
+/-- every node ever looked up is in range (the model's `getD` defaults are never used) -/
+theorem C02_lookups_in_range (A : PAlg P) (g : Grid P) (hwf : WF A.toPOps g) (s : PQState)
+    (h : Reach A.toPOps g (initNodes g) s) (v : Node) (hv : v ∈ s.queue) :
+    v.b < g.length ∧ validIdx (g.struct v.b).cols v.idx = true :=
+  (pq_exactly_once A g hwf s h).2.1 v (List.mem_append_right _ hv)
+
+/-- non-vacuity: on the 2×2 grid whose two middle nodes tie exactly, both resolutions of the tie are
+reachable and both emit the four nodes once -/
+example : Pcfg.Example.final0.popped.Perm (allNodes Pcfg.Example.g0) :=
+  (C02_exactly_once natAlg _ Pcfg.Example.wf0 _ Pcfg.Example.reach0).2.2 rfl
+
+example : [(⟨0, [0, 0]⟩ : Node), ⟨0, [0, 1]⟩, ⟨0, [1, 0]⟩, ⟨0, [1, 1]⟩].Perm (allNodes Pcfg.Example.g0) :=
+  (C02_exactly_once natAlg _ Pcfg.Example.wf0 _ Pcfg.Example.reach0').2.2 rfl
 
 end Pcfg.C02
